@@ -569,6 +569,7 @@ class Fm:
                 hi = self.const_int(e.slice.upper) if e.slice.upper is not None else None
                 if lo is None and hi is not None: return b, '(ntake %d %s)' % (hi, a), 'bytes'
                 if lo is not None and hi is not None: return b, '(nsub %d %d %s)' % (lo, hi, a), 'bytes'
+                if lo is not None and hi is None: return b, '(nskip %d %s)' % (lo, a), 'bytes'
                 raise Unsupported('slice ' + s)
             i = self.const_int(e.slice)
             t = self.fresh()
